@@ -20,6 +20,11 @@ which `replay()` calls as well):
   hist   histories on one object mixing n / w / bin-by / mesh / rejected calls and a second table with the same span
   entry  TimeSeries.plot_cycle_range / plot_cycle_rangemean / plot_cycle_rangemean3d, TsDB.plot_cycle_range / plot_cycle_rangemean
          (data handed to matplotlib, observed by a recorder), calculate_rfc; second call after the data changed
+  big    LARGE tables (999 .. 70001 rows: just below / at / above 1000, 1024, 4096, 10000, beyond 65536) rebuilt from a few parameters,
+         sorted as count_cycles returns them / reversed / shuffled, the single largest cycle in the first / last row or at a multiple of
+         1000 / 1024 / 4096 / 10000 / 65536, one row carrying 2^24 + 0.5 cycles, rows exactly on bin edges; histories of groupings on
+         the one table (range / mean, n in 1 .. 4097 incl. 255 / 256 / 257 / 1024 / 1025, widths 1/8 .. 5 and decimal), mesh with
+         33 / 65 / 129 / 300 bins: total, weighted sum, empty bins, exact-rational interval reference, marginals
 """
 import math
 from fractions import Fraction
@@ -549,7 +554,120 @@ def eval_entry(chk, inp):
             return
 
 
-EVAL = {"case": eval_case, "hist": eval_hist, "entry": eval_entry}
+
+# ---- LARGE tables described by a few parameters (size-conditioned code paths) -------------------------------------------------------
+BIG_GROUPS = ((999, 1000, 1001, 1023, 1024, 1025), (4095, 4096, 4097), (9999, 10000, 10001), (65537, 70001))
+BIG_BINS = (1, 2, 33, 65, 129, 255, 256, 257, 300, 1000, 1024, 1025, 4096, 4097)
+
+
+def big_table(p):
+    """cycle table of a `big` case rebuilt from its parameters: (rows, 3) float array, ranges / means multiples of 1/8, counts
+    0.5 / 1 / 2.5 / 3; `order`: sorted by range then mean (as count_cycles returns it), reversed, shuffled; events:
+      top-last / top-first   the single largest range (and the largest mean) in the last / first row
+      top-at b               the single largest range in row b (a multiple of 1000 / 1024 / 4096 / 10000 / 65536, or next to one)
+      heavy b                row b carries 2^24 + 0.5 cycles (a narrow accumulator drops the half)
+      edge b                 row b lies exactly on a bin edge of the case's specification (range / mean = k * w)"""
+    n = int(p["rows"])
+    g = np.random.default_rng(int(p["seed"]))
+    r = g.integers(0, 4000, n) / 8.0
+    m = g.integers(-800, 800, n) / 8.0 + float(p.get("offset", 0.0))
+    c = g.choice([0.5, 1.0, 1.0, 2.5, 3.0], n)
+    t = np.column_stack([r, m, c])
+    order = p.get("order", "sorted")
+    if order in ("sorted", "reversed"):
+        t = t[np.lexsort((t[:, 1], t[:, 0]))]
+        if order == "reversed":
+            t = t[::-1].copy()
+    for kind, pos in p.get("events", ()):
+        pos = int(pos) % n
+        if kind == "top":
+            t[pos, 0], t[pos, 1] = 512.0 + 0.125 * (pos % 7), 128.0 + float(p.get("offset", 0.0))
+        elif kind == "heavy":
+            t[pos, 2] = 2.0 ** 24 + 0.5
+        elif kind == "edge":
+            w = float(Fraction(p["spec"].get("w", "1/2")))
+            t[pos, 0] = w * (1 + pos % 40)
+            t[pos, 1] = t[:, 1].min() + w * (pos % 40)
+    return t * np.array([float(p.get("scale", 1.0)), float(p.get("scale", 1.0)), 1.0])
+
+
+def gen_big(rng, quick):
+    if quick:
+        sizes = [rng.choice(gp) for gp in BIG_GROUPS]
+    else:
+        sizes = [n for gp in BIG_GROUPS for n in gp] * 2
+    for k, n in enumerate(sizes):
+        bs = sorted(set(b for q in (1000, 1024, 4096, 10000, 65536) for b in range(q, n - 1, q)))
+        near = [b + d for b in bs for d in (-1, 0, 1)] or [0, n - 1]
+        ev = [["top", rng.choice([0, n - 1] if k % 2 == 0 else near)], ["heavy", rng.choice(near + [0, n - 1])]]
+        for _ in range(rng.randint(0, 3)):
+            ev.append(["edge", rng.choice(near + [0, n - 1])])
+        if rng.random() < 0.3:
+            ev = [e for e in ev if e[0] != "heavy"]
+        nreq = 1 if (quick and n > 20000) else 3
+        reqs = []
+        for j in range(nreq):
+            binby = rng.choice(["range", "mean"])
+            if rng.random() < 0.6:
+                spec = dict(n=rng.choice(BIG_BINS if n < 20000 or not quick else BIG_BINS[:12]))
+            else:
+                spec = dict(w=rng.choice(["1/8", "1/4", "1/2", "1", "3/8", "5", "0.3", "0.7", "2.1"]))
+            reqs.append(dict(op="rebin", binby=binby, spec=spec))
+        if n < 20000 or not quick:
+            reqs.append(dict(op="mesh", nr=rng.choice([1, 33, 65, 129, 300]), nm=rng.choice([1, 33, 65, 129, 300])))
+        yield dict(kind="big", rows=n, seed=rng.getrandbits(40), order=rng.choice(["sorted", "sorted", "reversed", "shuffled"]),
+                   offset=rng.choice([0.0, 0.0, 1024.0]), scale=rng.choice([1.0, 1.0, 0.5, 1024.0]), events=ev,
+                   spec=dict(w=rng.choice(["1/2", "1/8", "1"])), form=rng.choice(["ndarray", "ndarray", "list-of-lists"]), requests=reqs)
+
+
+def eval_big(chk, inp):
+    """a history of groupings on ONE large table; every request judged by the total / weighted-sum / empty-bin clauses and by the
+    exact-rational interval reference (`interval_oracles`; the quadratic nearest-bin search of `conservation_oracles` is left out)"""
+    from qats.fatigue.rainflow import rebin, mesh
+    try:
+        arr = big_table(inp)
+    except Exception as e:
+        raise core.InfraError("cannot build big table %r: %s" % (inp, e))
+    t = [tuple(row) for row in arr.tolist()]
+    keep = arr.copy()
+    obj = arr if inp.get("form", "ndarray") == "ndarray" else [list(row) for row in t]
+    tot = math.fsum(c for _, _, c in t)
+    for k, rq in enumerate(inp["requests"]):
+        rin = dict(inp, step=k)
+        try:
+            if rq["op"] == "mesh":
+                res = mesh(obj, nr=rq["nr"], nm=rq["nm"])
+                mesh_oracles(chk, t, rq["nr"], rq["nm"], res, rin)
+            else:
+                binby = rq["binby"]
+                kind = "w" if "w" in rq["spec"] else "n"
+                val = Fraction(rq["spec"]["w"]) if kind == "w" else int(rq["spec"]["n"])
+                if kind == "w":
+                    val = Fraction(float(val) * float(inp.get("scale", 1.0)))       # (the width in the table's unit, as the float handed over)
+                out = _rows_out(rebin(obj, binby=binby, n=None if kind == "w" else val, w=None if kind == "n" else float(val)))
+                sec = 1 if binby == "range" else 0
+                btot = math.fsum(row[2] for row in out if row[2] is not None)
+                if not abs(btot - tot) <= 1e-9 * max(1.0, tot):
+                    chk.fail("total cycle count conserved (large table)", rin, tot, btot, clause="total")
+                wsum = math.fsum(c * (m if binby == "range" else r) for r, m, c in t)
+                wabs = math.fsum(abs(c * (m if binby == "range" else r)) for r, m, c in t)
+                bsum = math.fsum(row[2] * row[sec] for row in out if row[2] and row[sec] is not None)
+                if not abs(bsum - wsum) <= 1e-9 * wabs:
+                    chk.fail("count-weighted sum of the other quantity conserved (large table; relative to the table's magnitude)",
+                             rin, wsum, bsum, clause="weighted-rel")
+                bad = next((row for row in out if row[2] is not None and (row[2] == 0) != (row[sec] is None)), None)
+                if bad is not None:
+                    chk.fail("empty bins carry count 0 (and nan), non-empty bins a value", rin, "consistent", bad, clause="empty")
+                interval_oracles(chk, t, binby, kind, val, out, rin)
+        except Exception as e:
+            chk.fail("rebin/mesh must not raise on a valid (large) table", rin, "table", "%s: %s" % (type(e).__name__, str(e)[:100]),
+                     clause="raise")
+        if not np.array_equal(np.asarray(obj, dtype=float), keep):
+            chk.fail("a grouping leaves the caller's table as it was (the next grouping is of the same cycles)", rin, "unchanged",
+                     "changed", clause="total")
+            return
+
+EVAL = {"case": eval_case, "hist": eval_hist, "entry": eval_entry, "big": eval_big}
 
 
 # ---- generators (every choice from chk.rng) --------------------------------------------------------------------------------------------
@@ -1057,6 +1175,12 @@ def run(chk):
                 chk.dist("entry:%s%s" % (inp["method"], "+then" if inp.get("then") else ""))
                 chk.nontriv(repr(inp))
             EVAL[inp["kind"]](chk, inp)
+    # ---- large tables: 999 .. 70001 rows (around 1000 / 1024 / 4096 / 10000, beyond 65536), 1 .. 4097 bins ---------------------------------
+    for inp in gen_big(rng, chk.quick):
+        chk.count("big")
+        chk.dist("big:rows=%d:%s" % (inp["rows"], inp["order"]))
+        chk.nontriv(("big", inp["rows"], inp["seed"]))
+        eval_big(chk, inp)
 
 
 def replay(rp):
